@@ -98,7 +98,10 @@ impl ToTokens for DeriveInputShapeSet {
 
                             struct_check.check(struct_data)
                         }
-                        ::darling::export::syn::Data::Union(_) => unreachable!(),
+                        // A union has neither a struct shape nor an enum shape.
+                        ::darling::export::syn::Data::Union(_) => {
+                            ::darling::export::Err(::darling::Error::unsupported_shape("union"))
+                        }
                     }
                 }
             }
